@@ -155,13 +155,31 @@ def _check(lines, scenario_text, strict, out):
     crashed = False
     finished = False
 
+    cur = [0, 0]     # [time of the last line that carried one, index of the current line]
+
+    def _next_time(i):
+        # a call at `a<k>` runs after the clock step and before the first completion: its instant is
+        # the one the next H / K / R line shows
+        for nxt in lines[i + 1:]:
+            tk = nxt.split()
+            if tk and tk[0] in ("H", "K", "R", "Q"):
+                m = re.search(r"\bt=(-?\d+)", nxt)
+                if m: return int(m.group(1))
+        return cur[0]
+
     def now(ctx):
         if ctx == "top":
             return top_time
+        if re.match(r"s\d+$", ctx): return cur[0]
+        if re.match(r"a\d+$", ctx): return _next_time(cur[1])
         return ctx_time.get(ctx, top_time)
 
-    for raw in lines:
+    for li, raw in enumerate(lines):
         line = raw.strip()
+        cur[1] = li
+        if line[:2] in ("H ", "K ", "R "):
+            mt = re.search(r"\bt=(-?\d+)", line)
+            if mt: cur[0] = int(mt.group(1))
         if not line:
             continue
         tok = line.split()
